@@ -43,7 +43,11 @@ func Render(stmts []Stmt, enc Enc, style int) []byte {
 		}
 		switch st.T {
 		case "x":
-			fmt.Fprintf(&b, "# comment %d%s", i, eol)
+			if st.S != "" { // the specification chose the line (specs/ObjNames.tla SkipLines)
+				b.WriteString(st.S + eol)
+			} else {
+				fmt.Fprintf(&b, "# comment %d%s", i, eol)
+			}
 		case "v", "vt", "vn":
 			b.WriteString(lead + st.T)
 			for _, k := range st.X {
